@@ -70,7 +70,7 @@ def run(c):
         e = events[i]
         key = "reachable:%s:%s:%s" % (e.get("op"), e.get("res"), e.get("t"))
         seen[key] = seen.get(key, 0) + 1
-        if seen[key] <= 2:
+        if c.want_reproduction(key, seen[key]):
             s = scen[owner[i]]
             c.reproduce_trace("sigdb", s["sc"], "SigDbTrace", "SigDbTrace.cfg", ("sc", "i", "panic"))
         c.report(key, "event %s -> %s is not allowed by the specification" % (e.get("op"), e.get("res")), dict({"ops": scen[owner[i]]["ops"], "event": e}, **c.rp("sigdb", scen[owner[i]], validate=("SigDbTrace", "SigDbTrace.cfg"))))
